@@ -32,7 +32,7 @@ CLAIM = {
             "allowance is added to weight_lower_bound only for inputs of a signable spend type; (R8.9) the fee velocity "
             "limit test itself: VelocityControl::insert refuses whenever window sum + amount > limit (for every limit value) "
             "before it counts, and a counted fee is persisted before success is returned (same obligations as C12 "
-            "R12.3/R12.4). Does not decide "
+            "R12.3/R12.4). (R8.10) refusals are real refusals under every filter configuration: PolicyFilter::filter lets the first matching rule decide with that rule's own action and defaults to Error, and a policy error becomes Ok only when the filter says Warn (same obligations as C05 R5.4). Does not decide "
             "the arithmetic inequality over arbitrary amounts.",
     "note": "non-permissive policy; is_tx_non_malleable / estimate_feerate_per_kw / Address::* trusted by name",
     "technique": "static analysis: loop-iteration path rules (at-most-once credit, credit-or-unknown) + must-pass-through + guard scenarios",
@@ -51,6 +51,7 @@ def run(ctx):
     r87(ctx)
     r88(ctx)
     r89(ctx)
+    r_filter(ctx)
 
 
 def _updates(fv, b, var):
@@ -440,3 +441,11 @@ def r88(ctx):
         ctx.ob("R8.8", bool(de) and fv.must_pass(ib, de), f"{b.name}/allowance-needs-signable",
                f"the witness allowance `{e[:80]}` is added on a path that did not establish spend type != Invalid", where=f"{b.file}:{ln}",
                sample="allowance dominated by spend_type != Invalid")
+
+
+def r_filter(ctx):
+    """every guard of this property refuses through policy_err!; which tags are demoted to warnings is decided by
+    PolicyFilter::filter.  Same obligations as C05 R5.4 (first matching rule decides with its own action, default Error,
+    Err unless Warn), evaluated here because an operator's `error` pin on this property's tags depends on them."""
+    from rules import C05 as _c05
+    _c05.r54(ctx, rid="R8.10")
